@@ -1,0 +1,22 @@
+//go:build verif
+
+package kv
+
+// Verification hooks (build tag "verif"): exported views of the unexported
+// node-encryption functions, for differential checking. Add-only.
+
+func VerifEncrypt(key *[32]byte, message []byte) ([]byte, error) { return encrypt(key, message) }
+
+func VerifDecrypt(key *[32]byte, c []byte) ([]byte, error) { return decrypt(key, c) }
+
+func VerifLegacySeal(m []byte, n []byte, k *[32]byte) ([]byte, error) {
+	return crypto_secretbox_easy(m, n, k)
+}
+
+func VerifLegacyOpen(c []byte, n []byte, k *[32]byte) ([]byte, error) {
+	return crypto_secretbox_open_easy(c, n, k)
+}
+
+func VerifNonce(message []byte, n int) ([]byte, error) { return nonce(message, n) }
+
+func VerifDeriveKey(master, context []byte) []byte { return deriveKey(master, context) }
